@@ -392,6 +392,7 @@ func c12(args []string) int {
 				}
 			}
 		})
+		var rdump, cdump []string
 		for _, name := range append(append([]string(nil), rnames...), unknown) {
 			var fresh types.Routers
 			rc, inDump := dumpR[name]
@@ -401,17 +402,25 @@ func c12(args []string) int {
 			if w := rm.GetRouterWrapperByName(name); (w != nil) != inDump {
 				run.Fail("c12:router-presence", fmt.Sprintf("router %s: live=%v, in dumped configuration=%v", name, w != nil, inDump), rep)
 			}
+			var ls []string
+			reported := false
 			for k, q := range battery {
 				var f liveAns
 				if fresh != nil {
 					f.one, f.found, f.all = lookup(fresh, q)
 				}
+				var allq []string
+				for _, s := range f.all {
+					allq = append(allq, CoqString(s))
+				}
+				ls = append(ls, fmt.Sprintf("(%s, %s, %s)", oracle.coqReq(q), CoqOption(f.found, CoqString(f.one)), CoqList(allq)))
 				l := live[name][k]
-				if f.found != l.found || f.one != l.one || fmt.Sprint(f.all) != fmt.Sprint(l.all) {
+				if !reported && (f.found != l.found || f.one != l.one || fmt.Sprint(f.all) != fmt.Sprint(l.all)) {
 					run.Fail("c12:router-live-differs-from-dump", fmt.Sprintf("router %s, request %v: live answers %q %v, a router built from the dumped configuration answers %q %v", name, q, l.one, l.all, f.one, f.all), rep)
-					break
+					reported = true
 				}
 			}
+			rdump = append(rdump, fmt.Sprintf("(%s, %s)", CoqString(name), CoqList(ls)))
 		}
 		for _, name := range append(append([]string(nil), cnames...), unknown) {
 			cc, inDump := dumpC[name]
@@ -422,9 +431,13 @@ func c12(args []string) int {
 					sig = "c12:cluster-live-but-not-dumped"
 				}
 				run.Fail(sig, fmt.Sprintf("cluster %s: live=%v, in dumped configuration=%v", name, l.ok, inDump), rep)
-				continue
+				if !inDump {
+					cdump = append(cdump, fmt.Sprintf("(%s, None)", CoqString(name)))
+					continue
+				}
 			}
 			if !inDump {
+				cdump = append(cdump, fmt.Sprintf("(%s, None)", CoqString(name)))
 				continue
 			}
 			fc := cluster.NewCluster(cc)
@@ -435,6 +448,7 @@ func c12(args []string) int {
 				return true
 			})
 			sort.Strings(fh)
+			cdump = append(cdump, fmt.Sprintf("(%s, (Some (%s, %s)))", CoqString(name), CoqNat(lbCodes[string(fc.Snapshot().ClusterInfo().LbType())]), coqStrList(fh)))
 			if flb := string(fc.Snapshot().ClusterInfo().LbType()); flb != l.lb || fmt.Sprint(fh) != fmt.Sprint(l.hosts) {
 				run.Fail("c12:cluster-live-differs-from-dump", fmt.Sprintf("cluster %s: live %s %v, built from the dumped configuration %s %v", name, l.lb, l.hosts, flb, fh), rep)
 			}
@@ -459,8 +473,8 @@ func c12(args []string) int {
 			cops = append(cops, coqOp(o))
 			cres = append(cres, CoqBool(results[k]))
 		}
-		sh.Add(fmt.Sprintf("(%s,\n  %s,\n  %s,\n  %s)", CoqList(cops), CoqList(cres), CoqList(robs), CoqList(cobs)), rep)
-		weight += len(ops) + len(battery)*3
+		sh.Add(fmt.Sprintf("(%s,\n  %s,\n  %s,\n  %s,\n  %s,\n  %s)", CoqList(cops), CoqList(cres), CoqList(robs), CoqList(cobs), CoqList(rdump), CoqList(cdump)), rep)
+		weight += len(ops) + len(battery)*6
 		if weight >= 900 {
 			sh.Close()
 			sh = run.NewShard(header, "up_case", "up_mismatches endpoints_update_per_locality")
